@@ -20,7 +20,11 @@ def _to_list(val: Union['Task', Iterable['Task']]) -> List['Task']:
         raise RuntimeError("Unsupported type", type(val))
 
 
+# noinspection PyProtectedMember
 def _find_root(task: 'Task'):
+    if task.wbs is not None:
+        # Task.parent hides the WBS root task, so ids must be checked against whole WBS tree
+        return task.wbs._root()
     if task.parent is not None:
         return _find_root(task.parent)
     return task
